@@ -125,7 +125,11 @@ def run(L, rep, tier, seed):
         ctx.check_always(z3.BoolVal(ra.variant == ('None' if unix else 'Some')), 'peer-address-plumbing', sc)
         bl = s['body_length']
         ctx.check_always(z3.BoolVal(bl.variant == 'None'), 'no-framing-headers-no-declared-length', sc)
-        ctx.event('sample', {'head': repr(model_or_none(data))})
+        m0 = ctx.model()
+        if m0 is not None:
+            txt = model_bytes(m0, data).decode('latin1')
+            ctx.event('sample', {'kind': 'conversation', 'text': txt, 'mode': 'respond_all',
+                                 'predicted': {'urls': [model_bytes(m0, target).decode('latin1')], 'codes': [200]}})
         # nothing else is delivered; the stream ends cleanly
         cv.respond(rq)
         r2 = cv.next()
@@ -137,6 +141,7 @@ def run(L, rep, tier, seed):
                 '0..%d headers (names 1/3 tchar, OWS in {none,SP,HTAB SP}/{none,SP}, values {empty, 1 byte, "x:y SP HTAB z"}); '
                 'TCP and UNIX peers' % (2 if tier == 'quick' else 3))
     collect_simple(S, rep, 'C02', 'head-fidelity')
+    validate_samples(S, rep, 'head-fidelity')
 
 
 def model_or_none(data):
@@ -167,3 +172,29 @@ def collect_simple(S, rep, prop, name, known=None):
         rep.violation(v)
         rep.sample(sc)
     S.last_violations = []
+
+
+def validate_samples(S, rep, name, limit=3):
+    """differential validation of the models (DESIGN 2.4 item 1): a few of the concrete witnesses this run produced are replayed on
+    the real build over loopback; the native observables must equal what the model predicted, otherwise the run is inconclusive"""
+    if os.environ.get('VERIF_NO_REPLAY') == '1':
+        return
+    todo = [s for s in rep.samples if isinstance(s, dict) and s.get('kind') == 'conversation' and s.get('predicted') and
+            (s.get('bytes_hex') or s.get('text') is not None) and not s.get('_validated')][:limit]
+    if not todo:
+        return
+    try:
+        from mirsym import replay_net
+        for sc in todo:
+            nat = replay_net.observe(S.L, sc)
+            sc['_validated'] = True
+            if nat is None:
+                continue
+            pred = sc['predicted']
+            diffs = {k: (pred[k], nat.get(k)) for k in pred if pred[k] != nat.get(k)}
+            rep.replays += 1
+            sc['native'] = nat
+            if diffs:
+                rep.inconc('%s: model disagrees with the implementation on a witness: %r (scenario %s)' % (name, diffs, str(sc.get('text', ''))[:120]))
+    except Exception as e:
+        rep.notes.append('%s: witness replay not possible: %r' % (name, e))
